@@ -4,8 +4,25 @@ C08 — vehicle energy and battery state follow the powertrain model along a rou
 Model: `Compass/Model/Energy.lean` (tied to the Rust code by the bit-exact correspondence run of
 `harness/src/c08.rs` against `Drv/C08.lean`).  All theorems are over an arbitrary linearly ordered
 field `α` (ℚ, ℝ): every edge sequence, every length / speed / grade (any sign), every vehicle type,
-capacity, starting charge and unit configuration.  The prediction model is the parameter
-`PredRecord.rate`; the cache is the parameter `Caches` (any key type, any key function).
+starting charge and unit configuration, and every *positive* battery capacity (see below).  The
+prediction model is the parameter `PredRecord.rate`; the cache is the parameter `Caches` (any key
+type, any key function).
+
+Modelled rather than verified (the theorems do not speak about these):
+* f64 arithmetic.  The theorems are exact arithmetic in an ordered field; rounding, overflow and
+  NaN of the code's doubles are outside them (the direct oracle of the harness runs on doubles).
+  One place where a field artefact would hide a real failure is division by the battery capacity:
+  in a field `x / 0 = 0`, so `asSocPercent 0 0 = 0` and the clamp bounds would "hold" at capacity 0,
+  while the code computes `(0.0 / 0.0) * 100 = NaN` and `NaN.clamp(0, 100) = NaN`
+  (`soc_capacity_zero_artefact`).  Every charge theorem is therefore stated for a positive
+  capacity, which the vehicle builders guarantee since /repo fix f2c4b1e (`battery_capacity_positive`,
+  `battery_capacity_rejected`); `BEV::new` / `PHEV::new` called directly still take any capacity.
+* the time model is the speed-table engine (`SpeedTraversalModel`), the only time model the energy
+  service is configured with; the prediction model is an arbitrary function (parameter); the LRU
+  order of the `lru` crate is modelled, not verified; the haversine value used by
+  `estimate_traversal` is an input.
+* `PredRecord.predict` itself does not check the cache policy's length; the check
+  (`FloatCachePolicy::get`) is modelled where `traverse_edge` reaches it (`cacheAccepts`).
 -/
 import Compass.Proofs.Energy
 
@@ -163,11 +180,16 @@ theorem phev_soc_unclamped_step (sus dep : PredRecord α) (b : Battery α) (fu :
 
 /-! ## Bounds along every route -/
 
-/-- C08 `soc_bounds`: for every vehicle, every edge sequence and every cache state, if the charge
-starts within 0–100 it is within 0–100 after the route (hence, the statement being for every edge
-list, after every prefix of it).  No hypothesis on capacity, energies or units. -/
+/-- C08 `soc_bounds`: for every vehicle with a positive battery capacity, every edge sequence and every
+cache state, if the charge starts within 0–100 it is within 0–100 after the route (hence, the
+statement being for every edge list, after every prefix of it).  No hypothesis on energies or
+units.  The capacity hypothesis is not used by the field proof — the clamp alone gives the bounds in
+exact arithmetic, `x / 0 = 0` included (`Proofs/Energy.traverseEdge_socOk`) — but without it the
+statement would be false of the code: at capacity 0 the doubles are NaN
+(`soc_capacity_zero_artefact`).  Configured vehicles satisfy it: `battery_capacity_positive`,
+`soc_bounds_configured`. -/
 theorem soc_bounds (svc : Service α) (eng : SpeedEngine α) (v : Vehicle α) (fu : FeatureUnits)
-    (edges : List (Edge α)) (st st' : VState α × Caches K α)
+    (edges : List (Edge α)) (st st' : VState α × Caches K α) (_hcap : CapacityPos v)
     (h0 : 0 ≤ st.1.soc ∧ st.1.soc ≤ 100)
     (h : traverseRoute svc eng v fu edges st = .ok st') :
     0 ≤ st'.1.soc ∧ st'.1.soc ≤ 100 := by
@@ -183,7 +205,7 @@ theorem soc_bounds (svc : Service α) (eng : SpeedEngine α) (v : Vehicle α) (f
 /-- for a battery vehicle one traversed edge is enough: whatever the charge before (even out of
 range), it is within 0–100 after the edge -/
 theorem soc_bounds_after_edge (svc : Service α) (eng : SpeedEngine α) (v : Vehicle α) (fu : FeatureUnits)
-    (e : Edge α) (st st' : VState α × Caches K α) (hv : ∀ r, v ≠ .ice r)
+    (e : Edge α) (st st' : VState α × Caches K α) (hv : ∀ r, v ≠ .ice r) (_hcap : CapacityPos v)
     (h : traverseEdge svc eng v fu e st = .ok st') :
     0 ≤ st'.1.soc ∧ st'.1.soc ≤ 100 := by
   obtain ⟨s1, grade, _, _, rfl⟩ := traverseEdge_ok h
@@ -194,19 +216,21 @@ theorem soc_bounds_after_edge (svc : Service α) (eng : SpeedEngine α) (v : Veh
     simp only [Vehicle.consumeEnergy]
     split <;> exact updateSoc_bounds (α := α) _ _ _
 
-/-- the initial state's charge is within 0–100 for every vehicle (whatever its start energy) -/
-theorem soc_initial_bounds (v : Vehicle α) : 0 ≤ v.initialState.soc ∧ v.initialState.soc ≤ 100 := by
+/-- the initial state's charge is within 0–100 for every vehicle with a positive capacity (whatever
+its start energy; same remark on the capacity as for `soc_bounds`) -/
+theorem soc_initial_bounds (v : Vehicle α) (_hcap : CapacityPos v) :
+    0 ≤ v.initialState.soc ∧ v.initialState.soc ≤ 100 := by
   cases v with
   | ice r => simp [Vehicle.initialState]
   | bev r b => exact asSoc_bounds _ _
   | phev s d b => exact asSoc_bounds _ _
 
-/-- C08 `soc_bounds` from the initial state of any vehicle -/
+/-- C08 `soc_bounds` from the initial state of any vehicle with a positive capacity -/
 theorem soc_bounds_from_start (svc : Service α) (eng : SpeedEngine α) (v : Vehicle α) (fu : FeatureUnits)
-    (edges : List (Edge α)) (c : Caches K α) (st' : VState α × Caches K α)
+    (edges : List (Edge α)) (c : Caches K α) (st' : VState α × Caches K α) (hcap : CapacityPos v)
     (h : traverseRoute svc eng v fu edges (v.initialState, c) = .ok st') :
     0 ≤ st'.1.soc ∧ st'.1.soc ≤ 100 :=
-  soc_bounds svc eng v fu edges _ st' (soc_initial_bounds v) h
+  soc_bounds svc eng v fu edges _ st' hcap (soc_initial_bounds v hcap) h
 
 /-! ## Starting charge -/
 
@@ -378,9 +402,10 @@ theorem estimate_energy_battery (svc : Service α) (eng : SpeedEngine α) (ms : 
   · rw [hz] at hz'; cases hz'
   · rw [(best_case_state v b fu _ svc.distanceUnit s1 hv hcap).1, hel, best_case]
 
-/-- the estimate keeps the charge within 0–100 as well -/
+/-- the estimate keeps the charge within 0–100 as well (positive capacity, as for `soc_bounds`) -/
 theorem estimate_soc_bounds (svc : Service α) (eng : SpeedEngine α) (ms : α) (v : Vehicle α)
-    (fu : FeatureUnits) (hm : α) (s s' : VState α) (h0 : 0 ≤ s.soc ∧ s.soc ≤ 100)
+    (fu : FeatureUnits) (hm : α) (s s' : VState α) (_hcap : CapacityPos v)
+    (h0 : 0 ≤ s.soc ∧ s.soc ≤ 100)
     (h : estimateTraversal svc eng ms v fu hm s = .ok s') : 0 ≤ s'.soc ∧ s'.soc ≤ 100 := by
   rcases estimate_ok h with ⟨_, rfl⟩ | ⟨_, s1, _, _, hs, rfl⟩
   · exact h0
@@ -688,7 +713,12 @@ def routeDraws (svc : Service α) (eng : SpeedEngine α) (v : Vehicle α) (fu : 
         :: routeDraws svc eng v fu es st'
     | _, _, _ => []
 
-/-- C08 `energy_additive`: for every vehicle, edge sequence, cache and unit configuration, the
+/-- C08 `energy_additive`.  What this says and what it does not: `routeDraws` lists, by replaying the
+run, what `consume_energy` drew on each edge (each draw is characterised independently of the run by
+`consume_adds` and, in closed form, by `edge_energy_*_partial`); the theorem is the accumulation —
+nothing but these draws ever enters the accumulators, in particular the time model and the charge
+update leave them alone, and nothing is lost or counted twice over any number of edges.
+For every vehicle, edge sequence, cache and unit configuration, the
 accumulated `energy_liquid` / `energy_electric` after the route are the starting values plus the sum
 of the per-edge draws (each the edge's predicted energy converted from the rate's energy unit to
 the feature's unit), one draw per edge. -/
@@ -902,16 +932,51 @@ theorem findMinEnergyRate_le (sweep : List α) : ∀ r ∈ sweep, findMinEnergyR
   intro r hr
   exact (key sweep f64Max).2 r hr
 
-/-- a configured battery vehicle starts full (before any query), with the configured capacity and
-unit in force — so `bev_soc_step` etc. read `-100 · E[configured unit] / configured capacity` -/
-theorem battery_of_config (cap : α) (u : EnergyUnit) (hcap : cap ≠ 0) (r sus dep : PredRecord α) :
-    (Battery.ofConfig cap u).capacity = cap ∧ (Battery.ofConfig cap u).unit = u
-      ∧ (Vehicle.bev r (Battery.ofConfig cap u)).initialState.soc = 100
-      ∧ (Vehicle.phev sus dep (Battery.ofConfig cap u)).initialState.soc = 100 := by
-  have h : asSocPercent cap cap = (100 : α) := by
-    simp only [asSocPercent, hundred_eq, zero_eq, div_self hcap, one_mul]
+/-- C08 (builder, accepted): a battery the vehicle builders accept has the configured capacity — a
+positive one —, the configured unit, and starts full … -/
+theorem battery_capacity_positive (cap : α) (u : EnergyUnit) (b : Battery α)
+    (h : Battery.ofConfig cap u = .ok b) :
+    0 < b.capacity ∧ b.capacity = cap ∧ b.unit = u ∧ b.startEnergy = cap := by
+  simp only [Battery.ofConfig, zero_eq] at h
+  split at h
+  · rename_i hpos; cases h; exact ⟨hpos, rfl, rfl, rfl⟩
+  · cases h
+
+/-- … and (builder, rejected) a `battery_capacity` that is not positive is a configuration error -/
+theorem battery_capacity_rejected (cap : α) (u : EnergyUnit) (h : ¬ 0 < cap) :
+    Battery.ofConfig cap u = .error .build := by
+  simp [Battery.ofConfig, h]
+
+/-- a configured battery vehicle starts full (before any query), so `bev_soc_step` etc. read
+`-100 · E[configured unit] / configured capacity` with a positive capacity -/
+theorem battery_of_config (cap : α) (u : EnergyUnit) (b : Battery α) (h : Battery.ofConfig cap u = .ok b)
+    (r sus dep : PredRecord α) :
+    (Vehicle.bev r b).initialState.soc = 100 ∧ (Vehicle.phev sus dep b).initialState.soc = 100
+      ∧ CapacityPos (Vehicle.bev r b) ∧ CapacityPos (Vehicle.phev sus dep b) := by
+  obtain ⟨hpos, hc, _, hs⟩ := battery_capacity_positive cap u b h
+  have e : asSocPercent b.startEnergy b.capacity = (100 : α) := by
+    rw [hs, hc]
+    simp only [asSocPercent, hundred_eq, zero_eq, div_self (hc ▸ hpos).ne', one_mul]
     exact clamp_of_mem (by norm_num) (le_refl _)
-  exact ⟨rfl, rfl, h, h⟩
+  exact ⟨e, e, hpos, hpos⟩
+
+/-- C08 `soc_bounds`, end to end for a configured battery vehicle: the battery comes from the builder
+(hence a positive capacity, taken from `battery_capacity_positive`, not from an artefact of
+division), the query is accepted by `update_from_query`, and after any route from the initial state
+the charge is within 0–100 — and the capacity in force is still the configured positive one. -/
+theorem soc_bounds_configured (svc : Service α) (eng : SpeedEngine α) (fu : FeatureUnits)
+    (edges : List (Edge α)) (c : Caches K α) (st' : VState α × Caches K α)
+    (cap : α) (u : EnergyUnit) (b : Battery α) (v v' : Vehicle α) (q : SocQuery α)
+    (hb : Battery.ofConfig cap u = .ok b)
+    (hv : (∃ r, v = .bev r b) ∨ (∃ sus dep, v = .phev sus dep b))
+    (hq : v.updateFromQuery q = .ok v')
+    (h : traverseRoute svc eng v' fu edges (v'.initialState, c) = .ok st') :
+    (0 ≤ st'.1.soc ∧ st'.1.soc ≤ 100) ∧ CapacityPos v' := by
+  have hpos := (battery_capacity_positive cap u b hb).1
+  have hcv : CapacityPos v := by
+    rcases hv with ⟨r, rfl⟩ | ⟨sus, dep, rfl⟩ <;> exact hpos
+  have hcv' := updateFromQuery_capacityPos hq hcv
+  exact ⟨soc_bounds_from_start svc eng v' fu edges c st' hcv' h, hcv'⟩
 
 /-- units left out of the configuration default to the base units; the service's speed unit is the
 time model's -/
@@ -990,6 +1055,25 @@ theorem best_case_state_unit_mix_regression :
       ∧ 0 < (cxMixedBev.bestCaseEnergyState cxMixedUnits 10 .miles cxMixedBev.initialState).soc := by
   decide +kernel
 
+/-- Why the charge theorems assume a positive capacity: in exact arithmetic a zero capacity gives a
+charge of 0 (`0 / 0 = 0` in a field), within bounds, whereas the code computes
+`(0.0 / 0.0) * 100 = NaN` and `NaN.clamp(0, 100) = NaN` — reproduced on the real code through the
+vehicle builders before /repo fix f2c4b1e (oracle key `builder/battery-capacity-invalid`:
+`battery_capacity = 0` built, initial charge NaN, NaN after every edge; `battery_capacity = -5`
+built, consumption raised the charge). -/
+theorem soc_capacity_zero_artefact : asSocPercent (0 : ℚ) 0 = 0 := by decide +kernel
+
+/-- Regression witness of the repaired defect `builder/battery-capacity-invalid`: the builders refuse
+a zero and a negative capacity, and accept 60 kWh. -/
+theorem battery_capacity_regression :
+    Battery.ofConfig (0 : ℚ) .kilowattHours = .error .build
+      ∧ Battery.ofConfig (-5 : ℚ) .kilowattHours = .error .build
+      ∧ (∃ b, Battery.ofConfig (60 : ℚ) .kilowattHours = .ok b ∧ b.capacity = 60) := by
+  refine ⟨battery_capacity_rejected _ _ (by norm_num), battery_capacity_rejected _ _ (by norm_num), ?_⟩
+  refine ⟨Battery.unchecked 60 .kilowattHours, ?_, rfl⟩
+  simp only [Battery.ofConfig, zero_eq]
+  rw [if_pos (by norm_num)]; rfl
+
 /-
 Full statement of `soc_start` / `soc_rejected` / `soc_bounds` over *every* way a query can set the
 starting charge: besides `starting_soc_percent` (range-checked by `update_from_query`, theorems
@@ -1056,6 +1140,32 @@ example : socAfter (exBev 60) 101 [] = none ∧ socAfter (exPhev 12) (-1 / 1000)
   constructor <;> decide +kernel
 -- the best case is the ideal rate × distance
 example : (exBev 60).bestCaseEnergy 10 .miles = (2, .kilowattHours) := by decide +kernel
+
+-- `soc_bounds_configured` applies to a realistic configuration: a 60 kWh battery accepted by the builder,
+-- a query starting at 50 %, the four-edge route above — every hypothesis instantiated
+example : ∃ b v', Battery.ofConfig (60 : ℚ) .kilowattHours = .ok b
+    ∧ (Vehicle.bev cxRec b).updateFromQuery (.num 50) = .ok v'
+    ∧ (∃ st', traverseRoute exSvc exEng v' (exUnits v') exRoute (v'.initialState, exNoCache) = .ok st')
+    ∧ ∀ st', traverseRoute exSvc exEng v' (exUnits v') exRoute (v'.initialState, exNoCache) = .ok st' →
+        (0 ≤ st'.1.soc ∧ st'.1.soc ≤ 100) ∧ CapacityPos v' := by
+  have hb : Battery.ofConfig (60 : ℚ) .kilowattHours = .ok (Battery.unchecked 60 .kilowattHours) := by
+    simp only [Battery.ofConfig, zero_eq]; rw [if_pos (by norm_num)]; rfl
+  have hq : (Vehicle.bev cxRec (Battery.unchecked (60 : ℚ) .kilowattHours)).updateFromQuery (.num 50)
+      = .ok (Vehicle.bev cxRec { capacity := 60, startEnergy := Lit.lit 1 100 * 50 * 60, unit := .kilowattHours }) := by
+    simp only [Vehicle.updateFromQuery, Battery.withStartSoc, zero_eq, hundred_eq, Battery.unchecked]
+    rw [if_pos (by norm_num)]
+  refine ⟨_, _, hb, hq, ?_, ?_⟩
+  · have : (match traverseRoute exSvc exEng
+        (Vehicle.bev cxRec { capacity := 60, startEnergy := Lit.lit 1 100 * 50 * 60, unit := .kilowattHours })
+        (exUnits (Vehicle.bev cxRec { capacity := 60, startEnergy := Lit.lit 1 100 * 50 * 60, unit := .kilowattHours }))
+        exRoute ((Vehicle.bev cxRec { capacity := 60, startEnergy := Lit.lit 1 100 * 50 * 60, unit := .kilowattHours }).initialState, exNoCache) with
+        | .ok _ => true | .error _ => false) = true := by decide +kernel
+    split at this
+    · exact ⟨_, ‹_›⟩
+    · cases this
+  · intro st' h
+    exact soc_bounds_configured exSvc exEng _ exRoute exNoCache st' 60 .kilowattHours _ _ _ (.num 50) hb
+      (Or.inl ⟨cxRec, rfl⟩) hq h
 
 end C08
 end Compass
